@@ -218,6 +218,12 @@ SCALES = [(Fraction(3), "* au::mag<3>()"), (Fraction(1, 7), "/ au::mag<7>()"), (
           (Fraction(5, 9), "* au::mag<5>() / au::mag<9>()"), (Fraction(2 ** 31 - 1), "* au::mag<2147483647>()")]
 
 
+ONES = ["* au::mag<1>()", "/ au::mag<1>()", "* (au::mag<6>() / au::mag<6>())", "* au::pow<0>(au::mag<10>())",
+        "* (au::mag<5>() * au::pow<-1>(au::mag<5>()))"]
+RECIP = {Fraction(3): "/ au::mag<3>()", Fraction(1, 7): "* au::mag<7>()", Fraction(1000): "/ au::mag<1000>()",
+         Fraction(5, 9): "* au::mag<9>() / au::mag<5>()", Fraction(2 ** 31 - 1): "/ au::mag<2147483647>()"}
+
+
 def random_tree(rnd, units, prefixes, depth, allow=("mul", "div", "pow", "root", "scale", "prefix")):
     if depth <= 1 or rnd.random() < 0.25:
         return Tree("atom", atom=rnd.choice(units))
@@ -230,7 +236,16 @@ def random_tree(rnd, units, prefixes, depth, allow=("mul", "div", "pow", "root",
         return Tree("root", [random_tree(rnd, units, prefixes, depth - 1, allow)], n=rnd.choice([2, 3]))
     if k == "scale":
         fr, cpp = rnd.choice(SCALES)
-        return Tree("scale", [random_tree(rnd, units, prefixes, depth - 1, allow)], mag=model.mag_from_fraction(fr), mag_cpp=cpp)
+        inner = Tree("scale", [random_tree(rnd, units, prefixes, depth - 1, allow)], mag=model.mag_from_fraction(fr), mag_cpp=cpp)
+        r = rnd.random()
+        if r < 0.2:
+            # scaling an (already scaled, anonymous) unit by a magnitude that reduces to ONE must leave it alone
+            one = rnd.choice(ONES)
+            return Tree("scale", [inner], mag={}, mag_cpp=one)
+        if r < 0.3:
+            # ... and scaling it back by the reciprocal must give the unscaled unit again
+            return Tree("scale", [inner], mag=model.mag_from_fraction(1 / fr), mag_cpp=RECIP[fr])
+        return inner
     name = rnd.choice(sorted(prefixes))
     return Tree("prefix", [random_tree(rnd, units, prefixes, depth - 1, ("mul", "div", "pow", "prefix"))], prefix=(name, prefixes[name]))
 
@@ -324,7 +339,9 @@ def structure(t, marker):
     nested anonymous scalings merge, a total scale factor of 1 disappears)."""
     k = t.kind
     if k == "atom":
-        return {(t.atom.label if t.atom.label is not None else marker): Fraction(1)}
+        # an unlabeled unit prints as the generic marker, but two DIFFERENT unlabeled units are
+        # different bases: keep them apart with an invisible tag (removed again by label_text)
+        return {(t.atom.label if t.atom.label is not None else marker + "\x01" + t.atom.name + "\x02"): Fraction(1)}
     if k == "mul":
         return model.mul(structure(t.kids[0], marker), structure(t.kids[1], marker))
     if k == "div":
@@ -346,6 +363,12 @@ def structure(t, marker):
         ml, slash = mag_label(m)
         return {"[%s %s]" % ("(%s)" % ml if slash else ml, product_label(structure(inner, marker))): Fraction(1)}
     raise AssertionError(k)
+
+
+def label_text(t, marker):
+    """The label the documented grammar gives for the unit the tree denotes."""
+    import re
+    return re.sub("\x01[^\x02]*\x02", "", product_label(structure(t, marker)))
 
 
 def _split_top(s, sep):
